@@ -229,8 +229,13 @@ def gl22_table(repo: Repo):
     for st in fn.body:
         if isinstance(st, ast.Assign) and len(st.targets) == 1 and isinstance(st.targets[0], ast.Name):
             env.setdefault(st.targets[0].id, st.value)
-    if "ops_list" not in env or "ops_list_str" not in env:
-        raise AnalysisError("local_clifford_ops: ops_list / ops_list_str not found")
+    # the matrix list and the name list, whatever the locals are called: a list of local matrix names / a list of string literals
+    mlists = [k for k, v in env.items() if isinstance(v, ast.List) and v.elts and all(isinstance(e, ast.Name) and e.id in env for e in v.elts)]
+    slists = [k for k, v in env.items() if isinstance(v, ast.List) and v.elts and all(isinstance(e, ast.Constant) and isinstance(e.value, str) for e in v.elts)]
+    if len(mlists) != 1 or len(slists) != 1:
+        raise AnalysisError("local_clifford_ops: matrix list / name list not found")
+    env = dict(env)
+    env["ops_list"], env["ops_list_str"] = env[mlists[0]], env[slists[0]]
     mats = []
     for e in env["ops_list"].elts:
         if not (isinstance(e, ast.Name) and e.id in env):
